@@ -10,7 +10,7 @@
    Reference counts, the wlh and the hop of the fired source to its queue (dux_merge_evt) are not modelled: a fire
    event records the timer, the ds_pending_data it is handed over with, and the cached `now`. *)
 From Coq Require Import ZArith List Bool.
-From Verif Require Import Word Gen_consts Gen_timer Heap.
+From Verif Require Import Word Gen_consts Gen_time Gen_timer Heap.
 Import ListNotations.
 Local Open Scope Z_scope.
 
@@ -28,6 +28,50 @@ Definition compute_missed (target deadline interval now prev : Z) : Z * Z * Z :=
     else (UINT64_MAX, UINT64_MAX) in
   (u64 (prev + missed), tg, dl).
 Definition compute_missed_ub (interval : Z) : bool := interval =? 0.
+
+(* ---- _dispatch_timer_config_create (source.c:1172), every operation with its uint64 / int64 reading.
+   The decoding of `start` is Gen_time.f_dispatch_time_to_clock_and_value (translated); nano2mach is the identity in this
+   configuration (Gen_time.f_dispatch_time_nano2mach).  cur_clock = clock field of du_timer_flags.
+   result: (clock, target, deadline, interval) = the dispatch_timer_config_s handed to dt_pending_config.
+   A start with clock WALL and value 0 cannot occur (the decoder never returns it); the C code asserts. *)
+Definition config_create (start interval leeway cur_clock now_wall now_up now_mono : Z) : Z * Z * Z * Z :=
+  let interval := if interval =? 0 then 1 else if s64 interval <? 0 then INT64_MAX else interval in
+  let leeway := if s64 leeway <? 0 then INT64_MAX else leeway in
+  let '(clock, target) :=
+    if start =? DISPATCH_TIME_FOREVER then (cur_clock, INT64_MAX)
+    else
+      let '(clock, target) := f_dispatch_time_to_clock_and_value start now_wall in
+      if target =? DISPATCH_TIME_NOW then (clock, if clock =? 0 then now_up else now_mono)
+      else (clock, target) in
+  let '(interval, leeway) :=
+    if negb (clock =? 2) then
+      let interval := f_dispatch_time_nano2mach interval in
+      let interval := if interval <? 1 then 1 else interval in
+      (interval, f_dispatch_time_nano2mach leeway)
+    else (interval, leeway) in
+  let leeway := if (interval <? INT64_MAX) && (leeway >? interval / 2) then interval / 2 else leeway in
+  let deadline := if u64 (target + leeway) <? INT64_MAX then u64 (target + leeway) else INT64_MAX in
+  (clock, target, deadline, interval).
+
+(* ---- _dispatch_after (source.c:1324): what dispatch_after does with `when`.
+   AfterNever: when == FOREVER, the block is dropped.  AfterNow: delta == 0, plain dispatch_async.
+   AfterTimer clock target deadline: a one-shot source with DISPATCH_TIMER_AFTER, interval UINT64_MAX, activated. *)
+Inductive after_result := AfterNever | AfterNow | AfterTimer (clock target deadline : Z).
+Definition NSEC_PER_MSEC : Z := 1000000.
+Definition dispatch_after_model (when now_wall now_up now_mono : Z) : after_result :=
+  if when =? DISPATCH_TIME_FOREVER then AfterNever
+  else
+    let delta := f_dispatch_timeout when now_wall now_up now_mono in
+    if delta =? 0 then AfterNow
+    else
+      let leeway := delta / 10 in
+      let leeway := if leeway <? NSEC_PER_MSEC then NSEC_PER_MSEC else leeway in
+      let leeway := if leeway >? 60 * NSEC_PER_SEC then 60 * NSEC_PER_SEC else leeway in
+      let '(clock, target) := f_dispatch_time_to_clock_and_value when now_wall in
+      let leeway := if negb (clock =? 2) then f_dispatch_time_nano2mach leeway else leeway in
+      AfterTimer clock target (u64 (target + leeway)).
+Definition after_obs (r : after_result) : list Z :=
+  match r with AfterNever => [0] | AfterNow => [1] | AfterTimer c t d => [2; c; t; d] end.
 
 (* ---- state *)
 Record timer := mkT {
